@@ -1228,6 +1228,74 @@ func ruleCancelOwnership(w *World, r *Report, rule string) {
 		}
 		r.Check(okShape, rule, ns.Name()+"#failure-result", ns.Decl.Pos(), true,
 			"newScope returns a nil scope together with every error", "newScope returns a scope together with an error: the caller cannot know who owns it")
+		// every other step of newScope that can fail (a preload pass, a hook) leaves nothing behind
+		// either: it closes the scope on its own error exits, or newScope closes the scope before
+		// it reports the failure
+		closesOnError := func(h *FuncInfo) bool {
+			hinfo := h.Pkg.TypesInfo
+			if h.Decl.Recv == nil || len(h.Decl.Recv.List[0].Names) != 1 {
+				return false
+			}
+			recv := hinfo.Defs[h.Decl.Recv.List[0].Names[0]]
+			hfl := w.FlowOf(h)
+			hs := hfl.Solve(Spec{Must: true, Node: func(n ast.Node, in Facts) (gen, kill []string) {
+				for _, c := range callsIn(n, false) {
+					if rcv, k, ok := isCloseCall(hinfo, c); ok && k == "scope" && objOf(hinfo, rcv) == recv {
+						gen = append(gen, "closed")
+					}
+				}
+				return
+			}})
+			for _, ex := range hfl.Exits() {
+				if ex.Ret == nil || len(ex.Ret.Results) == 0 {
+					continue
+				}
+				if last := ex.Ret.Results[len(ex.Ret.Results)-1]; !isNilIdent(hinfo, last) && !hs.AtExit(ex).Has("closed") {
+					return false
+				}
+			}
+			return true
+		}
+		errFrom := map[types.Object]*FuncInfo{}
+		ast.Inspect(ns.Decl.Body, func(x ast.Node) bool {
+			if as, ok := x.(*ast.AssignStmt); ok && len(as.Rhs) == 1 {
+				if c, ok := unparen(as.Rhs[0]).(*ast.CallExpr); ok {
+					if cal := callee(info, c); cal != nil && w.Decls[cal] != nil {
+						if o := objOf(info, as.Lhs[len(as.Lhs)-1]); o != nil && isErrorType(o.Type()) {
+							errFrom[o] = w.Decls[cal]
+						}
+					}
+				}
+			}
+			return true
+		})
+		sol := fl.Solve(Spec{Must: true, Node: func(n ast.Node, in Facts) (gen, kill []string) {
+			for _, c := range callsIn(n, false) {
+				if _, k, ok := isCloseCall(info, c); ok && k == "scope" {
+					gen = append(gen, "closed")
+				}
+			}
+			return
+		}})
+		k := 0
+		for _, ex := range fl.Exits() {
+			if ex.Ret == nil || len(ex.Ret.Results) != 2 || isNilIdent(info, ex.Ret.Results[1]) {
+				continue
+			}
+			h := errFrom[objOf(info, ex.Ret.Results[1])]
+			if h == ro.runInits {
+				continue // judged in (1)
+			}
+			k++
+			ok := sol.AtExit(ex).Has("closed") || (h != nil && closesOnError(h))
+			name := "an error"
+			if h != nil {
+				name = "the error of " + h.Name()
+			}
+			r.Check(ok, rule, fmt.Sprintf("%s#error-exit/%d", ns.Name(), k), ex.Pos, true,
+				"the half-built scope is closed before this failure is reported",
+				"newScope returns "+name+" without the scope having been closed (by that step itself or here): the derived context is never cancelled and what was already created for the scope is never disposed")
+		}
 	}
 	// (3) CreateScope: every exit after the scope exists returns it or has closed it
 	for _, owner := range []string{"scope", "provider"} {
